@@ -608,18 +608,18 @@ def c11(pid, tier, seed, selftest=False):
     # bound is dominated by the 1 MiB slack, so small-scope runs use long inputs relative to CS
     for i, plen in enumerate([0, 3, 4, 5, 4096, 65536, 3 * MiB if thorough else MiB]):
         e = {"op": "enc", "api": "chunks", "aad": "key", "cs": 4 if plen <= 65536 else 1024, "plen": plen, "rs": [], "ws": [],
-             "fs": [], "kseed": 1, "pseed": 2, "id": "s%d" % i, "store": plen <= 65536}
+             "fs": [], "kseed": 1, "pseed": 2, "id": "s%d" % i, "store": plen <= 65536, "heapref": True}
         scenarios.append({"op": "rt", "id": "s%d" % i, "enc": e, "dec": {"rs": [], "ws": [], "fs": []}} if plen <= 65536 else e)
     sizes = [(16 * MiB, "key"), (48 * MiB, "pass")] if not thorough else [(1000 * MiB, "key"), (600 * MiB, "pass"), (64 * MiB, "key")]
     for i, (plen, api) in enumerate(sizes):
         aad = "key" if api == "key" else "pass"
         scenarios.append({"op": "enc", "api": api, "aad": aad, "cs": 65536, "plen": plen, "rs": [], "ws": [], "fs": [],
-                          "kseed": 1, "pseed": 4, "id": "be%d" % i, "store": False,
+                          "kseed": 1, "pseed": 4, "id": "be%d" % i, "store": False, "heapref": True,
                           "rgen": 0 if i == 0 else 65536, "wgen": 0 if i == 0 else 100000})
         scenarios.append({"op": "bigdec", "api": api, "aad": aad, "plen": plen, "chunk": 65536, "rs": [], "ws": [], "fs": [],
-                          "kseed": 1, "pseed": 4, "id": "bd%d" % i, "rgen": 0 if i == 0 else 40000})
+                          "kseed": 1, "pseed": 4, "id": "bd%d" % i, "rgen": 0 if i == 0 else 40000, "heapref": True})
         scenarios.append({"op": "bigdec", "api": api, "aad": aad, "plen": plen // 4 + 17, "chunk": 1000, "rs": [], "ws": [],
-                          "fs": [], "kseed": 2, "pseed": 5, "id": "bs%d" % i})
+                          "fs": [], "kseed": 2, "pseed": 5, "id": "bs%d" % i, "heapref": True})
     for s in scenarios:
         e = s["enc"] if s["op"] == "rt" else s
         rep.case(key_of(s), e["plen"] > e.get("cs", 65536))
